@@ -122,7 +122,7 @@ CLAIMS = {
     "C17": dict(
         technique="contract-based deductive verification: symbolic execution of __eq__/__ne__/__hash__ (z3 "
                   "equivalences, read-set inclusion), structural contracts of the collectors, slot coverage of nodes_",
-        level="other",
+        level="proof",
         text="x == x; == is a conjunction of same-attribute equalities (equivalence); != is its negation; the "
              "attributes a hash reads are among those equality compares (eq/hash); tables_/fields_()/find_ are the "
              "full node collections (collect/complete); nodes_() traverses every rendered slot (collect/nodes); the "
@@ -140,6 +140,60 @@ CLAIMS = {
         note=TRUST + "Axiom R1 (leftmost / first-alternative / greedy semantics of re.sub) is assumed and "
                      "cross-checked against CPython on a bounded sample.",
         design="§5 C18"),
+    "C05": dict(
+        technique="contract-based deductive verification: functional contracts of the literal renderers (symbolic "
+                  "execution of the real get_value_sql/_get_str_sql/format_quotes per value kind, wrapper and dialect, "
+                  "z3), inverse lemmas L-ESC-SQL / L-ESC-MYSQL machine-checked in Lean 4",
+        level="other",
+        text="For every wrapper class x value kind x {MySQL, other} the text computed by the real code is the "
+             "escaping function esc_D of the dialect's literal grammar applied to the value, inside quotes "
+             "(lit/computes); esc_D is injective with the grammar's decoder as left inverse (lit/lemma, Lean); the "
+             "escaping is chosen by ctx.dialect at render time, not by the wrapper class of the position "
+             "(lit/position); JSON terms are escaped like strings (lit/json-term - known finding).",
+        note=TRUST + "Lean 4 kernel trusted for the lemmas. A bounded CPython cross-check of the axioms on str.replace "
+                     "is recorded as an assumption cross-check, not as an obligation. Round trip on an engine is "
+                     "not covered.",
+        design="§4.2, §5 C05"),
+    "C07": dict(
+        technique="contract-based deductive verification: taint-style obligations on the symbolic result shape of "
+                  "every render function (name-labelled data occur only inside a quote atom with the context's "
+                  "quote character), functional contract of format_quotes, z3",
+        level="other",
+        text="In every render function of every class each name-typed datum reaches the text only through "
+             "format_quotes with the quote character of the context (alias: the alias quote character) "
+             "(quote/site); format_quotes wraps and doubles (quote/func - known finding: no doubling); no SQL "
+             "template is computed from data (quote/template); the dialect contexts carry the dialect's quote "
+             "characters (quote/ctx-consts).",
+        note=TRUST + "Known findings: format_quotes does not double an embedded quote character; CTE names and "
+                     "AliasedQuery names are emitted raw.",
+        design="§4.2, §5 C07"),
+    "C14": dict(
+        technique="contract-based deductive verification: exceptional postconditions (raise <=> specification "
+                  "condition over the pre-state) per guarded function, specification functions evaluated by the "
+                  "same symbolic engine, z3 implications in both directions per path",
+        level="proof",
+        text="For each of the 28 guards listed in contracts/spec/raises.py and every concrete class: a path ends in "
+             "the exception iff the specified condition holds (raise/iff), no other package exception escapes "
+             "(raise/unlisted); JoinOn.validate's guard is the emptiness of tables(criterion.fields_()) minus "
+             "(sources u joined items u item) (join/validate) and do_join calls it with FROM + UPDATE table + CTEs "
+             "(join/reach); the set-operation arity guard compares the select-list lengths (setop/arity).",
+        note=TRUST + "Set membership by ==/hash relies on C17 (hash coherence). RETURNING from a foreign table "
+                     "(_validate_returning_term) is covered only by raise/unlisted.",
+        design="§5 C14"),
+    "C15": dict(
+        technique="contract-based deductive verification: exceptional postcondition of every __getattr__ for the "
+                  "special-method probes (measured on the running interpreters), functional contract of every "
+                  "__copy__, the frame obligations of C01 for decoupling; CPython copy/pickle protocol axiomatised",
+        level="proof",
+        text="Every __getattr__ of the package, executed through the real ignore_copy wrapper, raises AttributeError "
+             "for every probe name copy/deepcopy/pickle (all protocols) send (getattr/probe, getattr/decorated); no "
+             "class customises the protocol (proto/plain); each __copy__ returns a new object of the same class with "
+             "the receiver's attributes and fresh copies of its containers (copy/contract); builder calls on a "
+             "duplicate write only to objects they allocate (decouple = C01 frame obligations).",
+        note=TRUST + "Axiom T7: CPython rebuilds plain instances through cls.__new__ + __dict__ when the probes "
+                     "raise AttributeError. Same rendering of a duplicate follows from C02 (render is a function of "
+                     "the reachable structure). User values stored in the tree must themselves be copyable.",
+        design="§5 C15"),
 }
 
 PENDING = "machinery for this property not completed yet (build in progress, see DESIGN.md §10)"
